@@ -274,6 +274,12 @@ var deferResultTemplates = []struct{ src, want string }{
 	{"t = make([]int64, 2)\nt[0] = 1\nprobe(func() {\ndefer func() { t[0] = 9 }()\nreturn t[0]\n}())", "(i 1)"},
 	{"a = [1, 2]\nprobe(func() {\ndefer func() { a[0] = 9 }()\nif true {\nreturn a[0]\n}\n}())", "(i 1)"},
 	{"a = [1, 2]\nprobe(func() {\ndefer func() { a = [7, 8] }()\nreturn a\n}())", "(l (i 1) (i 2))"},
+	// the implicit result (value of the last statement) is a value too
+	{"a = [1, 2]\nprobe(func() {\ndefer func() { a[0] = 9 }()\na[0]\n}())", "(i 1)"},
+	{"a = [1, 2]\nfunc f() {\ndefer func() { a[1] = 9 }()\na[1]\n}\nx = f()\nprobe(x)", "(i 2)"},
+	{"t = make([]int64, 2)\nt[0] = 1\nprobe(func() {\ndefer func() { t[0] = 9 }()\nt[0]\n}())", "(i 1)"},
+	{"s = make(struct {\nA int64\n})\ns.A = 1\nprobe(func() {\ndefer func() { s.A = 9 }()\ns.A\n}())", "(i 1)"},
+	{"a = [1, 2]\nprobe(func() {\ndefer func() { a[0] = 9 }()\nif true {\na[0]\n}\n}())", "(i 1)"},
 }
 
 // errors raised while a host function calls a script function back reach the enclosing try (or the host);
